@@ -9,6 +9,7 @@ import glob, importlib, os, sys, unittest
 from sx import core, hooks, harness as H
 from checks import stanza_common as SC
 
+DEFAULT_TIMEOUT_S = 40          # a case of this check takes about a second; a tree on which it takes longer than this is not explored further
 PROPERTY = "C09"
 LEVEL = "model_checking"
 CODE = ["yowsup/layers/*/protocolentities/*.py: <Entity>.fromProtocolTreeNode / toProtocolTreeNode / __init__ (every class listed in coverage.cases)",
